@@ -43,11 +43,21 @@ impl ReactResource for RB {}
 pub struct Pay<const T: u8>
 {
     pub id: u32,
+    /// some payloads own an auto-despawn signal of a pool entity: releasing the payload dooms that entity (dropped
+    /// after the `PayloadDrop` event has been logged)
+    pub sig: Option<AutoDespawnSignal>,
 }
 
 impl<const T: u8> Pay<T>
 {
-    pub fn new(id: u32) -> Self { Self{ id } }
+    pub fn new(id: u32) -> Self { Self{ id, sig: None } }
+
+    /// Payload `id` of the running case, with the signal the case table assigns to it (if any).
+    pub fn of_case(id: u32) -> Self
+    {
+        let sig = with_case(|c| match (c.carry.get(&id), c.despawner.as_ref()) { (Some(e), Some(d)) => Some(d.prepare(*e)), _ => None });
+        Self{ id, sig }
+    }
 }
 
 impl<const T: u8> Drop for Pay<T>
@@ -132,7 +142,7 @@ pub enum Resolved
     /// target system of RunSys / SysEvent / Despawn(system)
     Sys(SysUid),
     /// payload id of an event op (and the target system for system events)
-    Payload{ id: u32, sys: Option<SysUid> },
+    Payload{ id: u32, sys: Option<SysUid>, #[serde(default)] carries: Option<u8> },
     /// a registration: reactor uid, mode, keys actually passed (after the duplicate rule), token index
     Register{ sys: SysUid, mode: RegMode, api: RegApi, keys: Vec<Key>, token: Option<u16> },
     /// a revoke: token index
@@ -288,6 +298,9 @@ pub struct Case
     pub over_budget: bool,
     pub skipped: HashMap<SkipReason, u32>,
     pub active: bool,
+    /// payload id -> pool entity whose auto-despawn signal the payload owns
+    pub carry: HashMap<u32, Entity>,
+    pub despawner: Option<AutoDespawner>,
 }
 
 thread_local!
